@@ -11,12 +11,13 @@
 (* interleaving, happens-before still tracked, so NoDataRace is meaningful *)
 (* in both modes).                                                         *)
 (*                                                                         *)
-(* Heap.  hp.obj is the sequence of everything obtained from the aligned   *)
-(* operator new, in allocation order (the index is the identity; the       *)
-(* driver numbers allocations the same way): block tables                  *)
+(* Heap.  hp.obj maps the identity of everything obtained from the aligned *)
+(* operator new (100 * allocating thread + its k-th allocation, so that    *)
+(* identities do not depend on the interleaving; the trace normaliser      *)
+(* numbers the recorded allocations the same way) to: block tables         *)
 (*   [kind |-> "tb", st, size, blocks]  (immutable once published) and     *)
 (* blocks [kind |-> "blk", ...].  Table 0 is the static EMPTY_BLOCK_TABLE. *)
-(* hp.node is the sequence of RetireList nodes [data, next, st].           *)
+(* hp.node maps RetireList nodes (10 * thread + k) to [data, next, st].    *)
 (* An element is <<block, offset>>.                                        *)
 (*                                                                         *)
 (* Time.  `now` counts ticks, TPU ticks per 64 s unit (2 when model        *)
@@ -102,7 +103,9 @@ Put(f, x, v) == [y \in DOMAIN f \cup {x} |-> IF y = x THEN v ELSE f[y]]
 (***************************************************************************)
 TSize(tb) == IF tb = 0 THEN 0 ELSE hp.obj[tb].size
 TBlocks(tb) == IF tb = 0 THEN << >> ELSE hp.obj[tb].blocks
-ObjLive(o) == o \in 1..Len(hp.obj) /\ hp.obj[o].st = "live"
+ObjLive(o) == o \in DOMAIN hp.obj /\ hp.obj[o].st = "live"
+NewObj(t) == t * 100 + Cardinality({o \in DOMAIN hp.obj : o \div 100 = t}) + 1
+NewNode(t) == t * 10 + Cardinality({n \in DOMAIN hp.node : n \div 10 = t}) + 1
 Addrs(b) == {<<b, o>> : o \in 0..BS - 1}
 \* element designated by index n through table tb
 AddrOf(tb, n) == <<TBlocks(tb)[(n \div BS) + 1], n % BS>>
@@ -208,10 +211,10 @@ GLoad(t, M(_)) ==
 \* create_block_table(expect) + memcpy of the block pointers of the table read
 SNew(t) ==
   /\ t \in Thr /\ pc[t] = "s_new"
-  /\ LET id == Len(hp.obj) + 1
+  /\ LET id == NewObj(t)
          l == L[t]
-     IN /\ hp' = [hp EXCEPT !.obj = Append(@, [kind |-> "tb", st |-> "live", size |-> l.expect,
-                                               blocks |-> SubSeq(TBlocks(l.tb), 1, l.bnum)])]
+     IN /\ hp' = [hp EXCEPT !.obj = Put(@, id, [kind |-> "tb", st |-> "live", size |-> l.expect,
+                                                blocks |-> SubSeq(TBlocks(l.tb), 1, l.bnum)])]
         /\ ms' = NaWriteEff(TouchMs(ms, t, l.tb), t, TabCell(id), AllThr)
         /\ H' = TouchBad(H, l.tb)
         /\ SetL(t, [l EXCEPT !.ntb = id, !.i = l.bnum])
@@ -222,9 +225,9 @@ SNew(t) ==
 \* new_block_table->blocks[i] = create_block(): allocation + one constructor call per element
 SBlk(t) ==
   /\ t \in Thr /\ pc[t] = "s_blk"
-  /\ LET id == Len(hp.obj) + 1
+  /\ LET id == NewObj(t)
          l == L[t]
-         o1 == Append(hp.obj, [kind |-> "blk", st |-> "live", size |-> 0, blocks |-> << >>])
+         o1 == Put(hp.obj, id, [kind |-> "blk", st |-> "live", size |-> 0, blocks |-> << >>])
      IN /\ hp' = [hp EXCEPT !.obj = [o1 EXCEPT ![l.ntb].blocks = Append(@, id)]]
         /\ ms' = NaWriteEff(NaWriteAll(ms, t, {ElCell(a) : a \in Addrs(id)}), t, TabCell(l.ntb), AllThr)
         /\ H' = CtorAll(H, id)
@@ -307,8 +310,8 @@ RLoad(t, M(_)) ==
   /\ \E i \in Readable(ms, t, HEAD, Stale) :
        LET mo == M("retire_head_load")
            v == ms.mem[HEAD][i].val
-           n == Len(hp.node) + 1
-       IN /\ hp' = [hp EXCEPT !.node = Append(@, [data |-> L[t].tb, next |-> 0, st |-> "live"])]
+           n == NewNode(t)
+       IN /\ hp' = [hp EXCEPT !.node = Put(@, n, [data |-> L[t].tb, next |-> 0, st |-> "live"])]
           /\ ms' = LoadMs(NaWriteEff(ms, t, NodeCell(n), AllThr), t, HEAD, i, mo)
           /\ ev' = AtomEv(t, "load", "retire_head_load", mo, HEAD, v, 0, 0, TRUE)
           /\ SetL(t, [L[t] EXCEPT !.node = n, !.head = v])
@@ -529,6 +532,10 @@ DEnd ==
 (***************************************************************************)
 (* time                                                                    *)
 (***************************************************************************)
+\* Only r_clock / c_clock (the stamp), s_cas (the moment a table is superseded) and dl (the moment a
+\* table is given back) look at the time; a tick commutes with every other step, so when model checking
+\* it is enough to let time pass right before one of these (TimeMatters).
+TimeMatters == \E t \in AllThr : pc[t] \in {"r_clock", "c_clock", "s_cas", "dl"}
 Tick(d) ==
   /\ d > 0
   /\ now' = now + d
@@ -576,8 +583,8 @@ NotDestroyedEarly ==
   pc[0] = "idle" => \A j \in 1..Len(Published) : \A a \in Addrs(Published[j]) : Get(H.dtor, a) = 0 /\ ObjLive(Published[j])
 \* no leak of loser blocks / tables / retired tables at destruction; nothing freed twice
 NoLeak ==
-  H.dead => /\ \A o \in 1..Len(hp.obj) : hp.obj[o].st = "freed"
-            /\ \A n \in 1..Len(hp.node) : hp.node[n].st = "freed"
+  H.dead => /\ \A o \in DOMAIN hp.obj : hp.obj[o].st = "freed"
+            /\ \A n \in DOMAIN hp.node : hp.node[n].st = "freed"
 NoDoubleFree == H.bad # "NoDoubleFree"
 \* "a snapshot stays usable for at least one cooling period (64 s) after the growth that superseded it,
 \* even if gc() is called": a table is never given back earlier than one unit after it was superseded ...
